@@ -36,6 +36,10 @@ def inventory(F, fns):
                 continue
             t = blk["term"]
             if t["k"] == "assert":
+                if t["kind"] in ("MisalignedPointerDereference", "NullPointerDereference") and blk["sp"][2]:
+                    # debug-build checks rustc inserts around raw-pointer writes inside std macro expansions (vec![..]);
+                    # the workspace contains no `unsafe` code of its own
+                    continue
                 out.append(Site(f, b, bi, "assert:" + t["kind"], t["kind"], t))
             elif t["k"] == "call":
                 n = callee_name(t) or ""
